@@ -1,5 +1,6 @@
 """C09 — mandatory structure is enforced and the error names the culprit."""
 from .common import Report
+from . import accept
 from . import grules, roundtrip, dispatch
 
 LEVEL = "other"
@@ -27,4 +28,5 @@ def run(F, tier):
     # only the literal part of D1 concerns C09
     rep.findings = [f for f in rep.findings if not (f.rule == "D1" and not f.instance.startswith(("parser-new", "message_type")))]
     rep.sample({"types_with_minimum_occurrence_check": rep.rules["MO"].get("types_with_minimum")})
+    accept.u6(rep, F, "parser")
     return rep
